@@ -950,6 +950,16 @@ func (ss *session) execOn(in *inst, idx int, f []string) string {
 				} else if in.commits == 0 && rt != freshRoot(map[string][]byte{}) {
 					ss.fail("reopen-faithful", "commit", in, "after a failed first Commit a new instance does not report the root of the empty map")
 				}
+				for k, w := range in.committed {
+					h, err := p.has(hkey(k))
+					if err != nil || !h {
+						ss.fail("reopen-faithful", "commit", in, fmt.Sprintf("after a failed Commit a new instance misses key %x of the last successful Commit (%v)", k, err))
+					} else if in.isMap() && !(len(w) > 0 && (w[0] == 0xDD || w[0] == 0xCC)) {
+						if v, ex, err := p.m.Get(hkey(k)); err != nil || !ex || !bytes.Equal(v, w) {
+							ss.fail("reopen-faithful", "commit", in, fmt.Sprintf("after a failed Commit a new instance holds %x=%x (exists=%v, %v), the last successful Commit stored %x", k, v, ex, err, w))
+						}
+					}
+				}
 			}
 
 			return ans
@@ -1034,7 +1044,9 @@ func (ss *session) execOn(in *inst, idx int, f []string) string {
 		return fmt.Sprintf("peek raw=[%s] size=%s root=%s nodes=%s", strings.Join(raw, " "), size, root, ns)
 	case "restored":
 		b := in.restored()
-		if check && b != (in.commits > 0) {
+		// (also on instances reopened with un-committed changes or through a failing identifier decoder: the root
+		// cell is there exactly when a Commit succeeded)
+		if b != (in.commits > 0) {
 			ss.fail("restored-iff-committed", "restored", in, fmt.Sprintf("WasRestoredFromStorage() = %v after %d commits", b, in.commits))
 		}
 
